@@ -245,6 +245,7 @@ package client
 //@   ensures [future-open] err == nil && msg.QOS > 0 ==> f != nil && !as(f, *future.Future).done && has(c.futureStore.store, lastid[3]) && c.futureStore.store[lastid[3]] == as(f, *future.Future)
 //@   ensures [qos0-complete] err == nil && msg.QOS == 0 ==> f != nil && as(f, *future.Future).done && nsent[3] == old(nsent[3]) + 1
 //@   ensures [released] held[c.mutex] == 0
+//@   at call 1 send assert [registered-before-send] has(c.futureStore.store, publish.ID) && c.futureStore.store[publish.ID] == publishFuture
 //@   modifies everything
 //
 // end / Close / Disconnect: the processor goroutine is waited for only if it
@@ -324,6 +325,7 @@ package client
 //@   ensures [not-connected] old(c.state) != 3 ==> err != nil && nsentall == old(nsentall)
 //@   ensures [sent] err == nil ==> nsent[8] == old(nsent[8]) + 1 && lastid[8] != 0 && has(c.futureStore.store, lastid[8]) && !c.futureStore.store[lastid[8]].done
 //@   ensures [released] held[c.mutex] == 0
+//@   at call 1 send assert [registered-before-send] has(c.futureStore.store, subscribe.ID) && c.futureStore.store[subscribe.ID] == subFuture
 //@   modifies everything
 //@ func (c *Client) UnsubscribeMultiple(topics []string) (f GenericFuture, err error)
 //@   requires [unlocked] held[c.mutex] == 0
@@ -331,6 +333,7 @@ package client
 //@   ensures [not-connected] old(c.state) != 3 ==> err != nil && nsentall == old(nsentall)
 //@   ensures [sent] err == nil ==> nsent[10] == old(nsent[10]) + 1 && lastid[10] != 0 && has(c.futureStore.store, lastid[10]) && !c.futureStore.store[lastid[10]].done
 //@   ensures [released] held[c.mutex] == 0
+//@   at call 1 send assert [registered-before-send] has(c.futureStore.store, unsubscribe.ID) && c.futureStore.store[unsubscribe.ID] == unsubscribeFuture
 //@   modifies everything
 
 // ---------------------------------------------------------------- Service (C17, C15)
